@@ -29,15 +29,19 @@ Inductive tmsg :=
 Inductive tfs :=
 | TStat (p : str) | TOpendir (p : str) | TOpenR (p : str) | TCreat (p : str)
 | TUtime (p : str) | TUnlink (p : str) | TMkdirOp (p : str)
-| TStatEntry (dir name : str)    (* stat(dir "/" name) for an entry of the listed directory *)
+| TStatEntry (dir name : str)    (* stat(join_dir dir name) for an entry of the listed directory *)
 | TOverflow                      (* strcpy/strcat beyond fullpath[PATH_MAX] in CreateFileListInfo *)
 | TLostFd.                       (* HandleFileUpload sets uploadFD = -1 while the previous upload's descriptor is
                                     still open: it is never closed (not by the close hook either) *)
 
+(* strcpy(fullpath, path); if (path[strlen(path)-1] != '/') strcat(fullpath, "/"); strcat(fullpath, d_name) *)
+Definition join_dir (d n : str) : str :=
+  d ++ (match rev d with 47 :: _ => [] | _ => [47] end) ++ n.
+
 Definition tfs_path (o : tfs) : str :=
   match o with
   | TStat p | TOpendir p | TOpenR p | TCreat p | TUtime p | TUnlink p | TMkdirOp p => p
-  | TStatEntry d n => d ++ 47 :: n
+  | TStatEntry d n => join_dir d n
   | TOverflow | TLostFd => []
   end.
 
@@ -140,9 +144,15 @@ Definition below_root (root p : str) : Prop :=
    (handlefiletransferrequest.c InitFileTransfer / SetFtpRoot / GetHomeDir, rfbtightserver.c
    rfbTightProcessArg, cargs.c: the extension's processArgument hook is called for every argument
    libvncserver itself does not know, with the rest of the command line) *)
-Record tinit := { t_initted : bool; t_enabled : bool; t_root : str }.
+(* [t_rootset]: SetFtpRoot has accepted a directory since the last wipe of ftproot (ghost for the tree; the variable
+   ftprootIsSet of notes/fix_C19_6.diff) *)
+Record tinit := { t_initted : bool; t_enabled : bool; t_root : str; t_rootset : bool }.
 (* static initialisers: fileTransferEnabled = TRUE, fileTransferInitted = FALSE, ftproot = "" *)
-Definition tinit0 : tinit := {| t_initted := false; t_enabled := true; t_root := [] |}.
+Definition tinit0 : tinit := {| t_initted := false; t_enabled := true; t_root := []; t_rootset := false |}.
+
+(* IsFileTransferEnabled().  [fx] = with notes/fix_C19_6.diff: transfer is on only if a root directory was accepted;
+   false = the tree (F19e): the flag alone *)
+Definition t_effective (fx : bool) (st : tinit) : bool := t_enabled st && (negb fx || t_rootset st).
 
 (* environment: getpwuid(geteuid())->pw_dir, and whether a path is an openable directory
    (stat + S_ISDIR + opendir) *)
@@ -157,17 +167,17 @@ Definition strip_slash (p : str) : str :=
 (* SetFtpRoot: (TRUE/FALSE, state) *)
 Definition set_root (env : tenv) (p : str) (st : tinit) : bool * tinit :=
   if (Zlength p =? 0) || (Zlength p >? C19_PATH_MAX - 1) || negb (dir_ok env p) then (false, st)
-  else (true, {| t_initted := t_initted st; t_enabled := t_enabled st; t_root := strip_slash p |}).
+  else (true, {| t_initted := t_initted st; t_enabled := t_enabled st; t_root := strip_slash p; t_rootset := true |}).
 
 (* InitFileTransfer: runs once; wipes ftproot, tries the home directory, switches transfer on *)
 Definition init_ft (env : tenv) (st : tinit) : tinit :=
   if t_initted st then st else
-  let st1 := {| t_initted := false; t_enabled := t_enabled st; t_root := [] |} in
+  let st1 := {| t_initted := false; t_enabled := t_enabled st; t_root := []; t_rootset := false |} in
   let st2 := match pw_home env with
              | Some (c :: h) => snd (set_root env (c :: h) st1)
              | _ => st1
              end in
-  {| t_initted := true; t_enabled := true; t_root := t_root st2 |}.
+  {| t_initted := true; t_enabled := true; t_root := t_root st2; t_rootset := t_rootset st2 |}.
 
 (* rfbTightProcessArg(argc, argv): number of arguments consumed, new state *)
 Definition process_arg (env : tenv) (st : tinit) (argv : list str) : nat * tinit :=
@@ -181,7 +191,7 @@ Definition process_arg (env : tenv) (st : tinit) (argv : list str) : nat * tinit
         | p :: _ => let '(ok, st') := set_root env p st in if ok then (2%nat, st') else (O, st)
         end
       else if list_eqb a s_disable then
-        (1%nat, {| t_initted := t_initted st; t_enabled := false; t_root := t_root st |})
+        (1%nat, {| t_initted := t_initted st; t_enabled := false; t_root := t_root st; t_rootset := t_rootset st |})
       else (O, st)
   end.
 
